@@ -144,12 +144,56 @@ func cmdMaven(args []string) error {
 	}
 	defer w.Close()
 	ctx := context.Background()
+	// VERIF_STEPS=<file>: also record the resolver's own account of every step (hook maven.VerifStep, build tag verif),
+	// one "start" event with the universe per resolution followed by the events the resolver emits.
+	var steps *ndWriter
+	type stepEv struct {
+		Ev       string `json:"ev"`
+		Universe []mArt `json:"universe,omitempty"`
+		Name     string `json:"name"`
+		V        int    `json:"v"`
+		R        int    `json:"r"`
+		Outcome  string `json:"outcome"`
+		Nodes    int    `json:"nodes"`
+		Edges    int    `json:"edges"`
+	}
+	var (
+		stepBuf []stepEv
+		stepGen int
+	)
+	if f := os.Getenv("VERIF_STEPS"); f != "" {
+		var err error
+		if steps, err = newNDWriter(f); err != nil {
+			return err
+		}
+		defer steps.Close()
+	}
 	for _, c := range cases {
+		if steps != nil {
+			stepGen++
+			gen := stepGen
+			stepBuf = []stepEv{{Ev: "start", Universe: c.Universe}}
+			maven.VerifStep = func(ev, name, ver, req, outcome string, nodes, edges int) {
+				if gen != stepGen {
+					return // an abandoned resolution still running
+				}
+				stepBuf = append(stepBuf, stepEv{Ev: ev, Name: name, V: vidx[ver], R: ridx[req], Outcome: outcome, Nodes: nodes, Edges: edges})
+			}
+		}
 		o := mObs{Universe: c.Universe, Root: c.Root, SoftOnly: c.SoftOnly, Graph: mGraph{Nodes: []nNode{}, Edges: []mEdge{}}, Model: c.Model}
 		lc := loadMavenUniverse(c, tb.Versions, tb.Reqs)
 		g, err := guarded(func() (*resolve.Graph, error) {
 			return maven.NewResolver(lc).Resolve(ctx, resolve.VersionKey{PackageKey: resolve.PackageKey{System: resolve.Maven, Name: c.Root.Name}, VersionType: resolve.Concrete, Version: tb.Versions[c.Root.V-1]})
 		})
+		if steps != nil {
+			maven.VerifStep = nil
+			stepGen++
+			for i := range stepBuf {
+				if e := steps.Write(&stepBuf[i]); e != nil {
+					return e
+				}
+			}
+		}
 		if err != nil || g == nil {
 			if err != nil {
 				o.Err = err.Error()
